@@ -128,6 +128,26 @@ func C17(p *core.Program, r *core.Report) {
 	checkTextNumberWidth(p, r)
 	checkEndpointDecoderValidates(p, r)
 	checkEndpointRegexps(p, r)
+	// no codec function reports success for a value it failed to encode / decode completely
+	nES := 0
+	for _, fn := range p.RepoFuncs() {
+		if fn.Pkg == nil || fn.Parent() != nil {
+			continue
+		}
+		switch fn.Pkg {
+		case p.Pkg(bp7), p.Pkg(msgsPkg), p.Pkg(agentPkg), p.Pkg("pkg/discovery"):
+		default:
+			continue
+		}
+		res := fn.Signature.Results()
+		if res.Len() == 0 || !isErrorType(res.At(res.Len()-1).Type()) {
+			continue
+		}
+		nES++
+		checkErrorsNotSwallowed(p, r, fn, "", nil)
+	}
+	r.Count("error-returning functions of the codec packages", nES)
+	r.Min("error-returning functions of the codec packages", 80)
 	checkBundleIDLen(p, r)
 }
 
